@@ -289,3 +289,51 @@ Proof.
   rewrite E in P. cbn [app] in P. etransitivity; [|exact P].
   apply perm_of_cnt. intros x. rewrite !cnt_app. lia.
 Qed.
+
+(* ================================================================ the executable scheduler only produces reachable states *)
+Lemma first_enabled_step N s ls s' : first_enabled N s ls = Some s' -> exists l, step N s l = Some s'.
+Proof.
+  induction ls as [|l ls IH]; simpl; [discriminate|]. destruct (step N s l) eqn:E; [intros H; inv H; eauto|auto].
+Qed.
+
+Lemma run_reach N fuel rot cf k s0 s : reach N s0 s -> reach N s0 (run N fuel rot cf k s).
+Proof.
+  revert rot s. induction fuel as [|f IH]; intros rot s R; simpl; auto.
+  destruct (match k with Some k' => k' <=? length (s_deliv s) | None => false end); auto.
+  destruct (first_enabled N s (cand_labels s rot cf)) eqn:E; auto.
+  apply first_enabled_step in E as (l & Hl). apply IH. eapply reach_step; eauto.
+Qed.
+
+Lemma apply_reach N ls s0 s : reach N s0 s -> reach N s0 (apply N ls s).
+Proof.
+  revert s. induction ls as [|l ls IH]; intros s R; simpl; auto.
+  destruct (step N s l) eqn:E; auto. apply IH. eapply reach_step; eauto.
+Qed.
+
+Lemma scenario_reach N s0 fuel rot cf k stops : reach N s0 (scenario N s0 fuel rot cf k stops).
+Proof. unfold scenario. apply run_reach, apply_reach, run_reach. constructor. Qed.
+
+(* ---- non-vacuity of the theorems' hypotheses ---- *)
+Definition buffer_final : state := Eval vm_compute in run buffer_net 1000 0 false None (buffer_init 2 [1; 2; 3]%Z).
+
+Example buffer_unaborted_run_exists :
+  reach buffer_net (buffer_init 2 [1; 2; 3]%Z) buffer_final /\ s_stopped buffer_final = false /\
+  quiescent buffer_net buffer_final /\ consumer_done buffer_final /\ s_deliv buffer_final = [1; 2; 3]%Z.
+Proof.
+  split; [|split; [reflexivity|split; [apply quiescentb_sound; vm_compute; reflexivity|split; [|reflexivity]]]].
+  - assert (E : buffer_final = run buffer_net 1000 0 false None (buffer_init 2 [1; 2; 3]%Z)) by (vm_compute; reflexivity).
+    rewrite E. apply run_reach. constructor.
+  - eexists. split; [reflexivity|reflexivity].
+Qed.
+
+Definition map_closed : state :=
+  Eval vm_compute in scenario (map_net 3) (map_init 3 [1; 2; 3; 4; 5]%Z) 1000 0 false (Some 2) [LClose 1].
+
+Example map_stop_scenario_exists :
+  reach (net_of (KMap 3)) (init_of (KMap 3) [[1; 2; 3; 4; 5]%Z]) map_closed /\ stop_happened (KMap 3) map_closed /\
+  quiescent (net_of (KMap 3)) map_closed /\ length (s_deliv map_closed) < 5.
+Proof.
+  split; [|split; [right; exists 1; split; [reflexivity|vm_compute; auto]|split; [apply quiescentb_sound; vm_compute; reflexivity|vm_compute; lia]]].
+  assert (E : map_closed = scenario (map_net 3) (map_init 3 [1; 2; 3; 4; 5]%Z) 1000 0 false (Some 2) [LClose 1]) by (vm_compute; reflexivity).
+  rewrite E. cbn [net_of init_of concat app]. apply scenario_reach.
+Qed.
